@@ -347,6 +347,61 @@ ReqEq(a, b) ==
   /\ \A n \in NamesOf(a.headers) \cup NamesOf(b.headers) : ValuesOf(a.headers, n) = ValuesOf(b.headers, n)
 
 (***************************************************************************)
+(* Leniencies (false-alarm audit).  The property quantifies over well-formed *)
+(* requests: origin-form targets, Cookie fields, X-Forwarded-For lists of  *)
+(* addresses with or without spaces after the commas.  The catalogues and  *)
+(* the random generator deliberately go further (raw non-ASCII targets,    *)
+(* cookie-strings that RFC 6265 does not derive, forwarded-for entries     *)
+(* that are no addresses or carry tabs / blanks before the comma).  On     *)
+(* those inputs the specification still says what it expects, but the      *)
+(* statement leaves the implementation free, so a disagreement in the      *)
+(* affected observable is reported as SPEC-DRIFT, never as a violation:    *)
+(*   "target"   path or query contain a byte that is not a URI character:  *)
+(*              path, query, and rejecting the request, are free           *)
+(*   "cookies"  the first Cookie value is not cookie-pair *( ";" SP        *)
+(*              cookie-pair ) with token names and cookie-octet values:    *)
+(*              the cookie list is free                                    *)
+(*   "addr"     the first X-Forwarded-For value is not a list of addresses *)
+(*              separated by "," and optional spaces: origin, proxies, and *)
+(*              rejecting the request, are free                            *)
+(* Header values (byte-exact), names, order of same-named fields, method,  *)
+(* version, body and the peer's port are never lenient.                    *)
+(***************************************************************************)
+UriChar == (TChar \ {"#", "^", "`", "|"}) \cup {"(", ")", ",", ";", "=", ":", "@", "/", "?", "%25"}
+AllIn(s, S) == \A i \in 1..Len(s) : s[i] \in S
+\* one-character symbols are the printable ASCII characters (and SP); cookie-octet excludes SP , ; (and " \ which are %HH symbols)
+CookieOctet(c) == Len(c) = 1 /\ c \notin {SP, COMMA, SEMI}
+StrictCookiePiece(p) ==
+  LET e == IndexFrom(p, 1, EQS)
+  IN /\ e > 1 /\ AllIn(SubSeq(p, 1, e - 1), TChar)
+     /\ \A i \in (e + 1)..Len(p) : CookieOctet(p[i])
+StrictCookie(v) ==
+  LET pcs == Split(v, SEMI)
+  IN \A k \in 1..Len(pcs) :
+        IF k = 1 THEN StrictCookiePiece(pcs[1])
+        ELSE pcs[k] # <<>> /\ pcs[k][1] = SP /\ StrictCookiePiece(Tail(pcs[k]))
+RECURSIVE DropSP(_)
+DropSP(s) == IF s # <<>> /\ s[1] = SP THEN DropSP(Tail(s)) ELSE s
+StrictXff(v) ==
+  LET ents == Split(v, COMMA)
+  IN \A k \in 1..Len(ents) : IsIp(IF k = 1 THEN ents[1] ELSE DropSP(ents[k]))
+Lenient(a) ==
+  (IF AllIn(a.path, UriChar) /\ AllIn(a.query, UriChar) THEN <<>> ELSE <<"target">>)
+  \o (LET c == FirstValue(a.headers, N_COOKIE) IN IF c.has /\ c.v # <<>> /\ ~StrictCookie(c.v) THEN <<"cookies">> ELSE <<>>)
+  \o (LET x == FirstValue(a.headers, N_XFF) IN IF x.has /\ ~StrictXff(x.v) THEN <<"addr">> ELSE <<>>)
+InSeq(x, L) == \E i \in 1..Len(L) : L[i] = x
+
+\* request equality outside the lenient observables L
+ReqEqL(a, b, L) ==
+  /\ a.ok /\ b.ok
+  /\ a.method = b.method /\ a.version = b.version /\ a.body = b.body /\ a.addr.port = b.addr.port
+  /\ InSeq("target", L) \/ (a.path = b.path /\ a.query = b.query)
+  /\ InSeq("addr", L) \/ a.addr = b.addr
+  /\ InSeq("cookies", L) \/ a.cookies = b.cookies
+  /\ Len(a.headers) = Len(b.headers)
+  /\ \A n \in NamesOf(a.headers) \cup NamesOf(b.headers) : ValuesOf(a.headers, n) = ValuesOf(b.headers, n)
+
+(***************************************************************************)
 (* JSON-friendly (flattened) form of an abstract request                   *)
 (***************************************************************************)
 StrSeq(ss) == [ i \in 1..Len(ss) |-> Str(ss[i]) ]
@@ -354,5 +409,5 @@ StrPairs(ps) == [ i \in 1..Len(ps) |-> << Str(ps[i][1]), Str(ps[i][2]) >> ]
 FlatReq(a) ==
   [m |-> Str(a.method), p |-> Str(a.path), q |-> Str(a.query), v |-> Str(a.version), h |-> StrPairs(a.headers),
    hasBody |-> a.hasBody, body |-> Str(a.body), origin |-> Str(a.addr.origin), proxies |-> StrSeq(a.addr.proxies),
-   port |-> a.addr.port, cookies |-> StrPairs(a.cookies), used |-> a.used]
+   port |-> a.addr.port, cookies |-> StrPairs(a.cookies), used |-> a.used, lenient |-> Lenient(a)]
 =============================================================================
